@@ -903,6 +903,7 @@ class BisectionZD(Bisection1D):
         i = self.selection_key_outer
 
         old_height = 99999
+        selections = {}
 
         while i < len(self.coordinates_domain_nested) and i < max_iter:
             self.coordinates_domain = self.coordinates_domain_nested[i]
@@ -913,6 +914,7 @@ class BisectionZD(Bisection1D):
             except ValueError:
                 break
             self.calculated_temperatures_nested[i] = self.calculated_temperatures
+            selections[i] = selection_key
 
             self.ghe.compute_g_functions()
             self.ghe.size(method=TimestepType.HYBRID)
@@ -941,9 +943,13 @@ class BisectionZD(Bisection1D):
 
         negative_excess_values = [v for v in values if v <= 0.0]
 
-        excess_of_interest = max(negative_excess_values)
-        idx = values.index(excess_of_interest)
-        selection_key = keys[idx]
+        if negative_excess_values:
+            excess_of_interest = max(negative_excess_values)
+            idx = values.index(excess_of_interest)
+            selection_key = keys[idx]
+        else:
+            # no field of that list meets the limits and the user asked to continue: keep the field its search returned
+            selection_key = selections[selection_key_outer]
         selected_coordinates = self.coordinates_domain_nested[selection_key_outer][selection_key]
 
         self.initialize_ghe(
